@@ -53,6 +53,7 @@ def units(tier):
         out.append((f"indexers_and_segments{list(shape)}[sparse_states={ns}]", "u_indexers", {"shape": shape, "ns": ns}))
         out.append((f"combination_grid{list(shape)}", "u_combination", {"shape": shape}))
     out.append(("state_choice_space[s(2),d(2) + h(3), w]", "u_space", {}))
+    out.append(("state_choice_space[filter on choices only: d(2),e(2) + h(3), w]", "u_space_choices", {}))
     return out
 
 
@@ -414,4 +415,71 @@ def u_space(rec):
     nseg = segments["num_segments"]
     rec.prove("num_segments == number of restricted states with a passing choice", sj._cmp("eq", nseg.term if isinstance(nseg, symnp.SymDim) else nseg, nf), [], replay=replay)
     rec.prove("space_info axis names", info.axis_names == ["state_index", "h", "w"], [], replay=replay)
+    return {"bounds": {"mask_shape": [2, 2]}, "symbols": 4}
+
+
+
+def u_space_choices(rec):
+    """create_state_choice_space for a filter that restricts CHOICES only (no restricted state): the passing
+    choice combinations are stored, there is no state indexer, and all of them form ONE segment (the
+    discrete problem maximises over them for every state)"""
+    import jax.numpy as jnp
+    from lcm import Model
+    from lcm.input_processing import process_model
+
+    shadow = shadow_state_space()
+    model = Model(
+        n_periods=2,
+        functions=dict(utility=lambda d, e, h, w: d + e + h + w, next_h=lambda h: h, next_w=lambda w: w, de_filter=lambda d, e: d + e <= 1),
+        choices=dict(d=dg(2), e=dg(2)),
+        states=dict(w=lin(0, 2, 3), h=dg(3)),
+    )
+    im = process_model(model)
+    mask, syms = sym_mask((2, 2))
+    rec.symbols = syms
+    symnp.MAXREP[0] = 4
+    shadow.create_filter_mask = lambda **kw: mask
+    space, info, indexers, segments = shadow.create_state_choice_space(model=im, period=0, is_last_period=False, jit_filter=False)
+    mt = mask.data
+    positions = list(np.ndindex(2, 2))
+    prank, total = ranks([mt[p] for p in positions])
+
+    def replay(vals):
+        import lcm.state_space as real
+
+        m = conc_mask((2, 2), vals)
+        if not m.any():
+            m = np.ones((2, 2), dtype=bool)  # structural obligations do not depend on the mask
+        orig = real.create_filter_mask
+        real.create_filter_mask = lambda **kw: jnp.asarray(m)
+        try:
+            sp, inf, ix, sg = real.create_state_choice_space(model=im, period=0, is_last_period=False, jit_filter=False)
+        finally:
+            real.create_filter_mask = orig
+        exp_d = [p[0] for p in positions if m[p]]
+        exp_e = [p[1] for p in positions if m[p]]
+        ok = list(sp.sparse_vars) == ["d", "e"] and list(np.asarray(sp.sparse_vars["d"])) == exp_d and list(np.asarray(sp.sparse_vars["e"])) == exp_e
+        ok = ok and list(sp.dense_vars) == ["h", "w"] and not ix and inf.axis_names == ["h", "w"]
+        ok = ok and sg is not None and list(np.asarray(sg["segment_ids"])) == [0] * int(m.sum()) and int(sg["num_segments"]) == 1
+        if ok:
+            return None
+        return {"what": "state-choice space of a choices-only filter: passing combinations must form one segment, no state indexer", "observed": {"sparse": {k: np.asarray(v).tolist() for k, v in sp.sparse_vars.items()}, "indexers": list(ix), "segments": None if sg is None else {k: np.asarray(v).tolist() for k, v in sg.items()}}, "expected": {"d": exp_d, "e": exp_e, "segment_ids": [0] * int(m.sum()), "num_segments": 1}}
+
+    anyp = sj.b_or(sj.b_or(mt[(0, 0)], mt[(0, 1)]), sj.b_or(mt[(1, 0)], mt[(1, 1)]))
+    rec.prove("sparse variables are the restricted choices in declaration order", list(space.sparse_vars) == ["d", "e"], [], replay=replay)
+    rec.prove("states stored as full grids", list(space.dense_vars) == ["h", "w"], [], replay=replay)
+    rec.prove("no state indexer", not indexers, [], replay=replay)
+    rec.prove("space_info axis names", info.axis_names == ["h", "w"], [], replay=replay)
+    rec.prove("choice segments exist", segments is not None, [], replay=replay)
+    if segments is not None:
+        nseg = segments["num_segments"]
+        rec.prove("one segment", sj.ite_b(anyp, sj._cmp("eq", nseg.term if isinstance(nseg, symnp.SymDim) else nseg, 1), True), [], replay=replay)
+        segs = segments["segment_ids"]
+        rec.prove("len(segment_ids) == number of passing combinations", sj._cmp("eq", segs.length if segs.length is not None else segs.data.shape[0], total), [], replay=replay)
+        for k, p in enumerate(positions):
+            rec.prove(f"segment of combination {p} == 0", sj.ite_b(mt[p], sj._cmp("eq", sym_at(segs, prank[k]), 0), True), [], replay=replay)
+    for k, p in enumerate(positions):
+        for vi, v in enumerate(["d", "e"]):
+            if v in space.sparse_vars:
+                rec.prove(f"{v}[rank{p}]", sj.ite_b(mt[p], sj._cmp("eq", sym_at(space.sparse_vars[v], prank[k]), p[vi]), True), [], replay=replay)
     return {"bounds": {"mask_shape": [2, 2]}, "symbols": 4}
